@@ -5,6 +5,7 @@ import json, os, subprocess
 ROOT = os.path.dirname(os.path.dirname(os.path.abspath(__file__)))
 
 CLAIMED = {
+ "C10": ("4 (C10)", "seeded interrogation dialogues over a lossy / duplicating / reordering channel with row expiry in between; oracle: reference gating automaton {CA recorded via DF11 (certain) or DF17 (possible), registers advertised by the latest admissible BDS 1,7 report, -R} plus an independent Doc 9871 decoder (checked against literature vectors): MB-derived fields change only when gating allows and the register is valid, take the reference values, and valid in-range advertised registers are decoded (left/right turns, climbs/descents)"),
  "C08": ("4 (C08)", "seeded two-message-protocol simulation: ground-truth trajectories stratified over all NL zones / both sides of every transition latitude / equator / +-87 / antimeridian / CPR-zero points, even/odd frames separated by exactly 9.999999 / 10 / 10.000001 s on the discrete-event clock, lost / duplicated / reordered frames; oracle: reference pairing automaton + textbook global CPR decode (NL from its formula), 20 m against encoded truth, haversine distance, position untouched by every frame that completes no valid pair"),
  "C11": ("4 (C11)", "seeded refinement against a small executable fold ('latest carrier wins') after every event of interleaved multi-aircraft histories with time steps and duplicate delivery; short histories enumerated densely by run index; carried values taken from the decoder's own state-free decode so that routing / overwriting / clearing / cross-talk / idempotence are judged, not field decoding"),
  "C19": ("4 (C19)", "seeded differential simulation under deterministic replay: the same world (input, arrival times, clocks) executed under two option sets differing only in presentation/logging options or in -U; oracle: row-by-row table equality after every event (all fields; all but distance for -O; the nine decoded parameters for -U)"),
